@@ -123,17 +123,43 @@ def run(chk):
                     bad = [("driver:" + str(e), None, None)]
                 if bad:
                     kinds = sorted(set(k.split(":")[0] for k, _, _ in bad))
+                    classes = []
                     if kinds == ["move"]:
-                        # classify: is every discrepant time one at which an -es keeps nothing (p == 0)?
+                        # classify every discrepant time by the known defect of the same-time group at that time
                         tb = set(t for _, _, t in bad)
                         zero = set(e[1] * 4 * N0 for e in pc["events"] if e[0] == "s" and e[3] == 0)
-                        if all(any(math.isclose(t, z, rel_tol=1e-9) for z in zero) for t in tb):
-                            kinds = ["move", "split-keeps-nothing"]
-                        else:
-                            nsplits = lambda t: sum(1 for e in pc["events"] if e[0] == "s" and math.isclose(e[1] * 4 * N0, t, rel_tol=1e-9))
-                            if all(nsplits(t) >= 2 for t in tb):
-                                kinds = ["move", "several-same-time-splits"]
-                    chk.violation("from_ms:semantics:" + "+".join(kinds),
+                        nsplits = lambda t: sum(1 for e in pc["events"] if e[0] == "s" and math.isclose(e[1] * 4 * N0, t, rel_tol=1e-9))
+
+                        def join_chain(t):
+                            """-ej x i followed, at the same time, by -ej i j, with further movements after it"""
+                            grp = [e for e in pc["events"] if e[0] in "js" and math.isclose(e[1] * 4 * N0, t, rel_tol=1e-9)]
+                            for a, e in enumerate(grp):
+                                if e[0] == "j":
+                                    for b in range(a + 1, len(grp)):
+                                        f = grp[b]
+                                        if f[0] == "j" and f[2] == e[3] and b + 1 < len(grp):
+                                            return True
+                            return False
+
+                        def cls(t):
+                            if any(math.isclose(t, z, rel_tol=1e-9) for z in zero):
+                                return "split-keeps-nothing"
+                            if join_chain(t):
+                                return "join-chain"
+                            if nsplits(t) >= 2:
+                                return "several-same-time-splits"
+                            return None
+                        classes = sorted(set(cls(t) for t in tb), key=str)
+                    if classes and None not in classes:
+                        for c in classes:
+                            chk.violation("from_ms:semantics:move+" + c,
+                                          "the graph does not describe the command's demography: %s at t=%r (%r)" % (bad[0][0], bad[0][2], bad[0][1]),
+                                          dict(rep, graph=gen.graph_payload(g), discrepancies=bad[:10]))
+                        continue_ = True
+                    else:
+                        continue_ = False
+                    if not continue_:
+                        chk.violation("from_ms:semantics:" + "+".join(kinds),
                                   "the graph does not describe the command's demography: %s at t=%r (%r)" % (bad[0][0], bad[0][2], bad[0][1]),
                                   dict(rep, graph=gen.graph_payload(g), discrepancies=bad[:10]))
             # optional names are applied in population order
